@@ -543,6 +543,7 @@ func (c *Check) scopeProvenance() {
 	}
 	c.noRequestMemo()
 	c.leaseClosedRouting("R4")
+	c.shellOnlyOnActiveLease("R4")
 	// "valid" on chain means never revoked: a genesis export / import cycle must not turn revoked certificates valid
 	// (shared with C17-R3)
 	c.certGenesisRoundTrip("R2")
@@ -739,5 +740,44 @@ func stripLoad(v ssa.Value) ssa.Value {
 		default:
 			return v
 		}
+	}
+}
+
+// shellOnlyOnActiveLease: the shell route runs a command in the cluster only for a deployment the manifest service
+// reports as active at this provider: the Exec call (wherever it sits among the handler and its new helpers) is
+// dominated by "IsActive returned no error" and "IsActive returned true", and IsActive is asked about the deployment
+// of the request's lease id.
+func (c *Check) shellOnlyOnActiveLease(rule string) {
+	l := c.L
+	hf := l.Func("provider/gateway/rest", "", "leaseShellHandler")
+	c.Analysed(fnName(hf))
+	nexec := 0
+	for _, g := range fnAndClosuresDeep(hf) {
+		for _, call := range callsInOwn(g) {
+			if calleeMethod(call) != "Exec" || !call.Common().IsInvoke() {
+				continue
+			}
+			nexec++
+			okErr, okAct, okID := false, false, false
+			for _, a := range factsAt(call.Block()) {
+				s := Sym(a.X)
+				if !strings.Contains(s, "IsActive(") {
+					continue
+				}
+				if strings.Contains(s, "DeploymentID(") && strings.Contains(s, "requestLeaseID(") {
+					okID = true
+				}
+				switch {
+				case strings.HasSuffix(s, "#1") && a.Op == "eq" && isNilConst(a.Y):
+					okErr = true
+				case strings.HasSuffix(s, "#0") && a.Op == "true":
+					okAct = true
+				}
+			}
+			c.Ob(rule, "shell command is run only after IsActive answered without error, with true, for the request's own deployment", call.Pos(), okErr && okAct && okID, "Exec is reachable for a deployment the manifest service does not report as active here (closed, never leased, or the check failed): a command runs against workloads that are no longer the caller's lease")
+		}
+	}
+	if nexec == 0 {
+		c.Info(rule, "shell route: no Exec call found in the handler, activity guard not decided", hf.Pos(), "")
 	}
 }
